@@ -222,6 +222,27 @@ def cache_params():
     return out
 
 
+def exec_params():
+    out = dict(start='StartUnknown', ctor='CtorUnknown')
+    pr = _src('runners/process.py')
+    fn = _find(pr, 'ProcessExecutor', '_start_processes')
+    if fn is None:
+        return out
+    want = _dump(ast.parse('start_count = max(0, self.max_workers - len(self._running_id_to_future_and_process))').body[0])
+    sl = _dump(ast.parse('futures_to_start = list(self._pending_future_to_thunk.keys())[:start_count]').body[0])
+    body = [_dump(n) for n in fn.body]
+    loops = [n for n in fn.body if isinstance(n, ast.For)]
+    if want in body and sl in body and len(loops) == 1 and _dump(loops[0].iter) == _dump(ast.parse('futures_to_start').body[0].value):
+        lb = _dump(ast.Module(body=loops[0].body, type_ignores=[]))
+        if 'process.start()' in ast.unparse(loops[0]) and '_running_id_to_future_and_process' in lb and 'del self._pending_future_to_thunk[future]' in ast.unparse(loops[0]):
+            out['start'] = 'StartUpToMax'
+    for n in ast.walk(fn):
+        if isinstance(n, ast.Assign) and isinstance(n.value, ast.Call) and ast.unparse(n.targets[0]) == 'process':
+            f = ast.unparse(n.value.func)
+            out['ctor'] = {'self.mp_context.Process': 'CtorMpContext', 'multiprocessing.Process': 'CtorModuleDefault'}.get(f, 'CtorUnknown')
+    return out
+
+
 def render():
     sp = sched_params()
     lines = [
@@ -233,6 +254,9 @@ def render():
     vp = values_params()
     lines += ['Definition deser_mode_src : deser_mode := %(deser)s.' % vp,
               'Definition setstate_mode_src : setstate_mode := %(setstate)s.' % vp]
+    ep = exec_params()
+    lines += ['Definition start_policy_src : start_policy := %(start)s.' % ep,
+              'Definition proc_ctor_src : proc_ctor := %(ctor)s.' % ep]
     cp = cache_params()
     lines += ['Definition save_order_src : save_order := %(order)s.' % cp,
               'Definition save_cleanup_src : save_cleanup := %(cleanup)s.' % cp]
